@@ -238,6 +238,7 @@ def _aggregate(agg, s):
         for name, n in s[k].items():
             agg[k][name] = agg[k].get(name, 0) + n
     agg["sigs"].add(s["sig"])
+    agg["digests"][s["i"]] = s["digest"]
     if s["nontrivial"]:
         agg["sigs_nontrivial"].add(s["sig"])
     agg["states"].update(s["states"])
@@ -256,7 +257,8 @@ def _aggregate(agg, s):
     agg["last_seed"] = s["run_seed"]
 
 
-def finish(eng, tier, batch_seed, agg, extra_cov=None, assumptions=None, extra_violations=None):
+def finish(eng, tier, batch_seed, agg, extra_cov=None, assumptions=None, extra_violations=None,
+           write_evidence=True):
     """Classify bad runs, shrink, write replays + evidence, print verdict. Returns exit code."""
     prop = eng.PROPERTY
     known = load_known(prop)
@@ -308,7 +310,13 @@ def finish(eng, tier, batch_seed, agg, extra_cov=None, assumptions=None, extra_v
         print("HARNESS-ERROR property=%s %s" % (prop, agg["broken"]))
         exit_code = 2 if exit_code == 0 else exit_code
     wall = agg["wall_s"]
+    import hashlib
+    bd = hashlib.sha256()
+    for i in sorted(agg["digests"]):
+        bd.update(("%d:%s;" % (i, agg["digests"][i])).encode())
+    batch_digest = bd.hexdigest()
     cov = {
+        "batch_digest": batch_digest,
         "evaluations": agg["evaluations"],
         "distinct_nontrivial": len(agg["sigs_nontrivial"]),
         "rule": eng.RULE,
@@ -344,9 +352,11 @@ def finish(eng, tier, batch_seed, agg, extra_cov=None, assumptions=None, extra_v
         "wall_s": round(time.time() - agg.get("t_start", time.time() - wall), 2),
         "violations": n_reported,
     }
-    os.makedirs(os.path.join(VERIF, "evidence"), exist_ok=True)
-    with open(os.path.join(VERIF, "evidence", prop + ".json"), "w") as f:
-        json.dump(ev, f, indent=1, sort_keys=True, default=core._jdefault)
+    if write_evidence:
+        os.makedirs(os.path.join(VERIF, "evidence"), exist_ok=True)
+        with open(os.path.join(VERIF, "evidence", prop + ".json"), "w") as f:
+            json.dump(ev, f, indent=1, sort_keys=True, default=core._jdefault)
+    print("batch_digest=%s" % batch_digest)
     print("%s %s tier=%s seed=%d runs=%d (planned %d%s) distinct_nontrivial=%d states=%d "
           "steps=%d wall=%.1fs faults=%s" % (
               "OK" if exit_code == 0 else "FAIL", prop, tier, batch_seed, agg["evaluations"],
